@@ -463,6 +463,8 @@ class VerifProcessBuilder:
             code = w.codes.get(key, 0)
             if code == 0:
                 job.donepath.touch()
+            elif code == -9:
+                pass  # killed outright (SIGKILL, OOM): the runner writes no marker
             else:
                 job.failedpath.write_text("1")
             w.lock_release(lockpath, pid)
